@@ -36,7 +36,7 @@ T = {
  "C13-m2": [("C13", "quick", r"ptri-3x6|ptri-")],
  "C14-m1": [("C14", "quick", r"pool-free-nblk3")],
  "C14-m2": [("C14", "quick", r"defsmall")],
- "C15-m1": [("C15", "quick", r"frame-s(0|13)$")],
+ "C15-m1": [("C15", "quick", r"frame-s(0|1)$")],
  "C15-m2": [("C15", "quick", r"frame-s4-20x27")],
  "C16-m1": [("C16", "quick", r"mp4-shape")],
  "C16-m2": [("C16", "quick", r"mp4-shape|@omp")],
@@ -47,7 +47,7 @@ T = {
  "C19-m1": [("C19", "quick", r"allcodes")],
  "C19-m2": [("C19", "quick", r"spread-len1[2-6]")],
  "C20-m1": [("C20", "quick", r"fail-s1-def")],
- "C20-m2": [("C20", "quick", r"fail-s11-ts")],
+ "C20-m2": [("C20", "quick", r"fail-s15-ts")],
 }
 
 def sh(cmd, **kw):
